@@ -154,9 +154,27 @@ func LoadNormalised(opts LoadOpts, dry func(*Prog)) (*Prog, error) {
 	const maxRounds = 4
 	canonTry := 0 // 0: both rewrites, 1: library forms only, 2: methods only
 	// round 0 and the last round rewrite library forms (canon.go); the rounds between expand helpers
-	for round := 0; round <= maxRounds+1; round++ {
+	for round := -1; round <= maxRounds+2; round++ {
 		var res roundPlan
-		if round == 0 || round == maxRounds+1 {
+		if round == -1 {
+			// pre-round: loops over this module's function iterators become the iterators' own loops (rangefunc.go)
+			if os.Getenv("MLB_NO_CANON") != "" {
+				continue
+			}
+			res = planRangeFunc(p)
+			if len(res.files) == 0 {
+				continue
+			}
+		} else if round == maxRounds+2 {
+			// last round: lists that are only collected and then consumed by one loop (fuse.go)
+			if os.Getenv("MLB_NO_CANON") != "" || os.Getenv("MLB_NO_FUSE") != "" {
+				continue
+			}
+			res = planCollectFuse(p)
+			if len(res.files) == 0 {
+				continue
+			}
+		} else if round == 0 || round == maxRounds+1 {
 			if os.Getenv("MLB_NO_CANON") != "" {
 				continue
 			}
@@ -217,6 +235,9 @@ func LoadNormalised(opts LoadOpts, dry func(*Prog)) (*Prog, error) {
 			}
 			if err != nil {
 				info.Fallback = fmt.Sprintf("round %d: expanded sources do not type-check (%v); analysing the previous form", round, firstLine(err.Error()))
+				if round == -1 {
+					continue
+				}
 				if round == 0 {
 					if canonTry < 2 {
 						canonTry++
@@ -234,7 +255,7 @@ func LoadNormalised(opts LoadOpts, dry func(*Prog)) (*Prog, error) {
 			info.Removed = append(info.Removed, res.removed...)
 		}
 		info.Expanded = append(info.Expanded, res.expanded...)
-		if round <= maxRounds {
+		if round <= maxRounds && round >= 0 {
 			info.Rounds = round
 		}
 		p = np
